@@ -82,6 +82,8 @@ func TestVerifC01Approved(t *testing.T) {
 	srv := vuNewServer()
 	defer srv.Close()
 	base := t.TempDir()
+	vgen.InvalidUTF8Names = true
+	defer func() { vgen.InvalidUTF8Names = false }()
 	rapid.Check(t, func(t *rapid.T) {
 		defer vuProcessZone(t)()
 		scn := vgen.UploadCase(t, vgen.FileOpts{StrictOS: true, BigValues: true, AllowBad: rapid.IntRange(0, 3).Draw(t, "allowBad") == 0})
@@ -274,7 +276,7 @@ func TestVerifC01Approved(t *testing.T) {
 			agg, overflow := vmodel.Aggregate(expired)
 			got, _ := vmodel.FromReport(&rep)
 			if !overflow {
-				if d := vmodel.DiffProgs(agg, got); d != "" {
+				if d := vmodel.DiffProgs(vmodel.AsRendered(agg), got); d != "" {
 					t.Fatalf("local.%s.json differs from the aggregate of the week's files: %s", week, d)
 				}
 			}
